@@ -11,7 +11,8 @@ CONSTANTS
     MaxBin,      \* number of binary operators in a sequence
     MaxPre,      \* total number of prefix operators placed
     Kinds,       \* operand kinds: subset of {"atom", "par", "call", "idx", "list"}
-    Mode         \* "trees" (C02) | "soup" (C03: arbitrary token sequences)
+    Mode         \* "trees" (C02) | "soup" (C03: arbitrary token sequences) | "args" (argument lists: every sequence over
+                 \* operands, the comma, the name-value operator and BinReps of length <= MaxBin inside every bracket form)
 
 BaseTable == IF Base = "legacy" THEN Legacy ELSE Standard
 
@@ -63,8 +64,14 @@ Sequences(ops) ==
          : k \in 0..MaxBin }
 
 \* C03: arbitrary short token sequences over the whole token alphabet of the table
-SoupTokens(ops) == Atoms \cup {"(", ")", "[", "]", ",", "f("} \cup (Syms(ops) \ {"[]", "{}"})
+SoupTokens(ops) == Atoms \cup {"(", ")", "[", "]", ",", "f(", "{", "}", "=>"} \cup (Syms(ops) \ {"[]", "{}"})
 Soups(ops) == UNION {[1..k -> SoupTokens(ops)] : k \in 0..MaxBin}
+
+\* argument lists in every bracket form
+ArgAlphabet(ops) == {"a", "b", ",", "=>"} \cup (BinReps \cap Syms(ops)) \cup (PreReps \cap Syms(ops))
+Brackets == { <<<<"f(">>, <<")">>>>, <<<<"[">>, <<"]">>>>, <<<<"c", "[">>, <<"]">>>>, <<<<"{">>, <<"}">>>>, <<<<"c", ".", "f(">>, <<")">>>>,
+              <<<<"d", "+", "f(">>, <<")", "[", "c", "]">>>> }
+ArgSeqs(ops) == UNION { { br[1] \o s \o br[2] : s \in [1..k -> ArgAlphabet(ops)], br \in Brackets } : k \in 0..MaxBin }
 
 VARIABLES tid, toks, out
 vars == <<tid, toks, out>>
@@ -75,7 +82,7 @@ Init ==
     /\ IF Status(tid) # "ok"
        THEN toks = <<>> /\ out = [st |-> Status(tid), ok |-> FALSE, t |-> NoTree]
        ELSE LET ops == TableOf(tid).ops
-            IN /\ toks \in (IF Mode = "soup" THEN Soups(ops) ELSE Sequences(ops))
+            IN /\ toks \in (IF Mode = "soup" THEN Soups(ops) ELSE IF Mode = "args" THEN ArgSeqs(ops) ELSE Sequences(ops))
                /\ out = [st |-> "ok", ok |-> Parse(ops, toks).ok, t |-> IF Parse(ops, toks).ok THEN Parse(ops, toks).t ELSE NoTree]
 Next == UNCHANGED vars
 Spec == Init /\ [][Next]_vars
